@@ -37,6 +37,7 @@ type peSpec struct {
 	DDSizeAdj int       `json:"ddsizeadj"` // added to the directory entry's size
 	Truncate  int       `json:"truncate"`  // if >0: cut the file to this length
 	PEAt64    bool      `json:"peat64"`    // (lfanew < 64) place the NT headers at offset 64 regardless of lfanew
+	Shadow    bool      `json:"shadow"`    // (with PEAt64) also write the fields findSignatures reads of a second NT header at lfanew
 	NoMZ      bool      `json:"nomz"`
 	NoPE      bool      `json:"nope"`
 }
@@ -141,6 +142,15 @@ func buildPE(r *core.Rng, s *peSpec) ([]byte, *peLayout) {
 	}
 	put32(opt+nrvaOff, s.NumRva)
 	lay.Cksum, lay.DD4 = opt+64, opt+ddoff
+	if s.Shadow && s.PEAt64 {
+		sh := s.Lfanew
+		copy(buf[sh:], []byte{'P', 'E', 0, 0})
+		put16(sh+20, s.OptSize)
+		put16(sh+24, magic)
+		put32(sh+24+nrvaOff, 16)
+		put32(sh+24+ddoff, 0)
+		put32(sh+24+ddoff+4, 0)
+	}
 	// section data
 	pos := hdrEnd + s.Gap
 	body := append([]byte{}, buf...)
